@@ -370,7 +370,28 @@ fn try_refresh(ctx: &mut Ctx, st: &mut Stats, op: &str, flav: &str, key_label: &
         }
     };
     if ctx.issued.iter().any(|i| i == &k) {
-        st.bump("equivalent_to_an_issued_key");
+        // the very bytes of an issued key (e.g. a splice that rebuilt another issued key): fine.
+        // Different bytes decoding to an issued key: the tampered *serialized form* is accepted
+        // (the quantifier is over tamperings of the serialized form); only allowed for pure
+        // field-level normalisations inside a secret (bit flips), not for structural operators.
+        let same_bytes = ctx.issued.iter().any(|i| ser(i).ok().as_deref() == Some(bytes));
+        if same_bytes || op.starts_with("bitflip-") {
+            st.bump("equivalent_to_an_issued_key");
+            return;
+        }
+        let mut kk = k.clone();
+        let mut msk = match de::<MasterSecretKey>(&ctx.msk_bytes) {
+            Out::Ok(m) => m,
+            _ => return,
+        };
+        if call(|| ctx.cc.refresh_usk(&mut msk, &mut kk, true)).is_ok() {
+            fail(
+                st,
+                format!("accepted-rearranged-serialization:{op}/{flav}"),
+                format!("{op} applied to the serialized form of issued key {key_label}: the bytes differ from every issued key, deserialize to an issued key object, and refresh accepts them"),
+                json!({"monitor": "c08", "op": op, "flavour": flav, "tampered_key": wire::hex(bytes)}),
+            );
+        }
         return;
     }
     let Some(before) = ser(&k).ok() else { return };
